@@ -42,6 +42,13 @@ CHECKS.update({
         "a refused command must leave the folder tree and database rows byte-identical. A depth-3/4 BFS composes such commands from two sessions.",
    note=H_NOTE, ref="DESIGN.md section 4 C05"),
 })
+CHECKS["C10"] = dict(cat="model_checking", engine="S-schedule-dfs", tech="stateless deviation-bounded schedule exploration of the real server + linearizability check against a sequential reference model",
+   text="For 20 (thorough: 23) scenarios of 2-3 sessions issuing colliding commands, every schedule of I/O completions, timers and command arrivals with <=2 (thorough: up to 3) "
+        "deviations from the default schedule is executed on the real server. Every command must be answered (no deadlock/starvation/watchdog), the results and final mailbox "
+        "contents must equal some sequential order of the commands' documented steps, and every session's replayed untagged stream must stay legal while commands overlap.",
+   note="Trusted: the virtual loop's notion of an atomic external operation (executor job / DB statement executed and completed at one scheduling point, DB channel FIFO), "
+        "the sequential reference (vf/refmodel/linear.py, store.py), the response tokenizer. Real OS-thread races inside aiosqlite/aiofiles are outside the cooperative scheduler.",
+   ref="DESIGN.md section 4 C10")
 NOT_YET = {}
 
 def main():
